@@ -1,4 +1,5 @@
 """--setup: check that the tools are present and warm the build caches (offline)."""
+import hashlib
 import os
 import shutil
 import subprocess
@@ -29,7 +30,7 @@ def setup(repo):
     except Exception as e:
         print('verus warm-up failed:', e)
         return 1
-    scratch = os.path.join(os.environ.get('TMPDIR', '/tmp'), 'grenad-verif-native')
+    scratch = os.path.join(os.environ.get('TMPDIR', '/tmp'), 'grenad-verif-native-%s' % hashlib.md5(VERIF.encode()).hexdigest()[:8])
     native_run.make_scratch(repo, scratch)
     env = dict(os.environ, CARGO_NET_OFFLINE='true', CARGO_TARGET_DIR=os.path.join(VERIF, '.cache', 'native-target'))
     p = subprocess.run(['cargo', 'test', '--offline', '--release', '--features', native_run.FEATURES, '--tests', '--no-run'],
